@@ -22,7 +22,7 @@ pub fn target(r: &mut Rng) -> Vec<(u32, u32)> {
             _ => (r.range(1, 10), 200, 5000),
         };
         if shape == 2 {
-            let n = *r.pick(&[4094u32, 4095, 4096, 4097, 4098]);
+            let n = *r.pick(&[4094u32, 4095, 4096, 4096, 4096, 4097, 4098]);
             // half as one run, half as every-other singles so that the chunk is not one interval
             // (short blocks rather than single values: a quarter of the runs, the same populations - carving thousands of
             // runs out of the operands of the algebra producers is quadratic in the list model)
